@@ -408,7 +408,7 @@ def r6_child_arguments(ctx, rep, R='C03.R6'):
              'records defaults and original arguments for the next level')
     m = ctx.model
     fi = m.func('runner.spawn_layer_in_subprocess')
-    gram = arg_grammar(fi, 'args')
+    gram = arg_grammar(fi, cmdline_list_name(fi))
     flat = [t for t in gram if t[0] != 'cond']
     want_head = [('const', '--resume-layer'), ('expr', 'layer_name'), ('expr', 'str(resume_number)')]
     i_res = next((i for i in range(len(flat)) if flat[i:i + 3] == want_head), None)
@@ -452,6 +452,31 @@ def r6_child_arguments(ctx, rep, R='C03.R6'):
               'defaults and original arguments are recorded on the options for re-invocation',
               'options.testrunner_defaults / original_testrunner_args are not recorded',
               key='child-args:recorded', func=fc.qualname, where=ctx.where(fc, fc.node))
+
+
+def cmdline_list_name(fi, handed='args'):
+    """the local in which the child command line is built: the list handed to Popen (role name
+    ``args``), or -- when that name is only an alias / a rendering of another list on every path
+    (``args = built`` on one platform, ``args = <string made from built>`` on the other) -- the
+    list it is made from"""
+    def grows(nm):
+        for n in ast.walk(fi.node):
+            if isinstance(n, ast.Call) and isinstance(n.func, ast.Attribute) and \
+                    n.func.attr in ('append', 'extend') and is_name(n.func.value, nm):
+                return True
+            if isinstance(n, ast.AugAssign) and is_name(n.target, nm):
+                return True
+        return False
+    if grows(handed):
+        return handed
+    defs = [n.value for n in ast.walk(fi.node) if isinstance(n, ast.Assign) and
+            any(is_name(t, handed) for t in n.targets)]
+    srcs = {d.id for d in defs if isinstance(d, ast.Name)}
+    if len(srcs) == 1:
+        src = srcs.pop()
+        if grows(src) and all(any(is_name(x, src) for x in ast.walk(d)) for d in defs):
+            return src
+    return handed
 
 
 def arg_grammar(fi, lst):
